@@ -100,11 +100,14 @@ class StateMachineMatcher:
             # extracted.
             if parts == []:
                 for rule in state.rules:
+                    if not _valid(rule, values):
+                        continue
+
                     if rule.methods is not None and method not in rule.methods:
                         have_match_for.update(rule.methods)
                     elif rule.websocket != websocket:
                         websocket_mismatch = True
-                    elif _valid(rule, values):
+                    else:
                         return rule, values
 
                 # Test if there is a match with this path with a
@@ -167,13 +170,13 @@ class StateMachineMatcher:
             # slash part.
             if parts == [""]:
                 for rule in state.rules:
-                    if rule.strict_slashes:
+                    if rule.strict_slashes or not _valid(rule, values):
                         continue
                     if rule.methods is not None and method not in rule.methods:
                         have_match_for.update(rule.methods)
                     elif rule.websocket != websocket:
                         websocket_mismatch = True
-                    elif _valid(rule, values):
+                    else:
                         return rule, values
 
             return None
